@@ -24,13 +24,25 @@ type verifPathReq struct {
 	path     ErrorPath
 }
 
-type verifPathGen struct{ reqs []verifPathReq }
+type verifPathGen struct {
+	reqs []verifPathReq
+	// owned: how many requests handed over a source expression marked as the method's own copy
+	owned int
+	// echo: the generator hands the source expression back as it is (what skipCopySameType does for identical types)
+	echo bool
+}
 
 // the location as it is at the moment of the request (the generator consumes it right away)
 func verifCopyPath(p ErrorPath) ErrorPath { return append(ErrorPath(nil), p...) }
 
 func (g *verifPathGen) Build(ctx *MethodContext, sourceID *xtype.JenID, source, target *xtype.Type, path ErrorPath) ([]jen.Code, *xtype.JenID, *Error) {
 	g.reqs = append(g.reqs, verifPathReq{"build", source.String, target.String, verifCopyPath(path)})
+	if sourceID.Owned {
+		g.owned++
+	}
+	if g.echo {
+		return nil, sourceID, nil
+	}
 	return nil, xtype.VariableID(jen.Id("x")), nil
 }
 
@@ -40,6 +52,9 @@ func (g *verifPathGen) Assign(ctx *MethodContext, assignTo *AssignTo, sourceID *
 		kind = "assign-in-place" // on top of an existing value (default constructor / update)
 	}
 	g.reqs = append(g.reqs, verifPathReq{kind, source.String, target.String, verifCopyPath(path)})
+	if sourceID.Owned {
+		g.owned++
+	}
 	return nil, nil
 }
 
@@ -153,6 +168,13 @@ func VerifHarness_C07_ErrPath() {
 		l0 = verifEffectCount("jen.Lit")
 		verifCopyPath(prefix).Field("F").Index(jen.Id("i")).WrapErrors(jen.Id("err"))
 		verifAssert("wrapErrors-names-the-innermost-index", verifEffectCount("jen.Lit") == l0+1 && verifEffectArg("jen.Lit", l0, 0).(string) == "error setting index %d: %w")
+		// ... also when map keys follow it (keys have no message of their own)
+		l0 = verifEffectCount("jen.Lit")
+		verifCopyPath(prefix).Field("M").Key(jen.Id("key")).WrapErrors(jen.Id("err"))
+		verifAssert("wrapErrors-names-the-innermost-field-before-a-key", verifEffectCount("jen.Lit") == l0+1 && verifEffectArg("jen.Lit", l0, 0).(string) == "error setting field M: %w")
+		l0 = verifEffectCount("jen.Lit")
+		verifCopyPath(prefix).Index(jen.Id("i")).Key(jen.Id("key")).Key(jen.Id("key2")).WrapErrors(jen.Id("err"))
+		verifAssert("wrapErrors-names-the-innermost-index-before-keys", verifEffectCount("jen.Lit") == l0+1 && verifEffectArg("jen.Lit", l0, 0).(string) == "error setting index %d: %w")
 		q0 := verifEffectCount("jen.Qual")
 		path.WrapErrorsUsing("example.org/perr", jen.Id("err"))
 		q1 := verifEffectCount("jen.Qual")
